@@ -828,6 +828,15 @@ theorem exec_serves_waiters_after_its_loop : Gen.execNotifiesWaiters = false := 
     transaction and `handle_discard` clear or take it -/
 theorem queue_cleared_when_transaction_ends : Gen.queueClearedWhenTransactionEnds = true := by decide
 
+/-- the WATCH set ends with the transaction that was watched for (EXEC in each outcome, DISCARD): the
+    input `Req.watchOk` of a LATER transaction depends only on keys watched after that ending -/
+theorem watch_set_cleared_when_transaction_ends : Gen.watchSetClearedWhenTransactionEnds = true := by decide
+
+/-- the frames of a client that blocked in a blocking pop wait and then run in the order sent: what
+    was kept back behind the pop comes before what arrived later (so that the schedule the loop runs
+    lists every connection's frames in the order that connection sent them, as `run` assumes) -/
+theorem deferred_frames_run_first : Gen.deferredFramesFirst = true := by decide
+
 /-- every fact above was actually read off the source: the translator substitutes a pessimistic
     value for a shape it does not recognise (so that model and driver keep building and the TCP run
     can search for a failing input) and lists it here -/
